@@ -14,7 +14,7 @@ from .c04 import host_consts, pmap
 from .core import Ctx
 
 KINDS = ("error", "rstack", "silent", "lost", "eof")
-WORKLOADS = ("idle", "one", "three", "reset", "late_issue", "scan", "scanned_one")
+WORKLOADS = ("idle", "one", "three", "reset", "late_issue", "scan", "scanned_one", "one_silent")
 
 
 def run_case(case):
@@ -63,7 +63,7 @@ def run_case(case):
             if state["done"]:
                 return
             state["done"] = True
-            ev({"a": "fail" if kind != "close" else "close", "kind": kind})
+            ev({"a": "fail" if kind not in ("close", "close_slow") else "close", "kind": kind})
             if kind == "error":
                 rig._read(stackrig.ashref.wire({"type": "ERROR", "ver": 2, "code": code}))
             elif kind == "rstack":
@@ -74,7 +74,10 @@ def run_case(case):
                 rig.lose("exc")
             elif kind == "eof":
                 rig.lose("eof")
-            elif kind == "close":
+            elif kind in ("close", "close_slow"):
+                if kind == "close_slow":
+                    # the transport cannot flush its output: it reports the closed connection only a minute later
+                    rig.tr.on_close = lambda: loop.call_later(60, rig._closed)
                 ezsp.close()
         orig_deliver, orig_on_write = rig.deliver, rig._on_write
 
@@ -113,10 +116,13 @@ def run_case(case):
             calls[c] = asyncio.Task(call(), loop=loop, eager_start=True)
         if k == 0 and state["armed"]:
             inject()
+        if workload == "one_silent":
+            rig.peer.silent = True          # the NCP has stopped acknowledging: the command's frame is retransmitted until the budget is used up
+            ev({"a": "fail", "kind": "silent"})
         if workload == "scan":
             issue(1, scan)
             state["scan_regs"] = [reg[-1] for reg in ezsp._protocol._awaiting.values()]     # the registration of the scan's own command
-        elif workload in ("one", "scanned_one"):
+        elif workload in ("one", "scanned_one", "one_silent"):
             issue(1, lambda: ezsp.getConfigurationValue(t_.EzspConfigId.CONFIG_STACK_PROFILE))
         elif workload == "three":
             issue(1, lambda: ezsp.getConfigurationValue(t_.EzspConfigId.CONFIG_STACK_PROFILE))
@@ -166,7 +172,7 @@ def run_case(case):
                     break
                 loop._vnow = max(loop._vnow, when)
         # probe: a new command once the failure is known
-        if rig.failed_at is not None or kind == "close":
+        if rig.failed_at is not None or kind in ("close", "close_slow"):
             n_w = len(rig.tr.writes)
             try:
                 ptask = asyncio.Task(ezsp.getConfigurationValue(t_.EzspConfigId.CONFIG_STACK_PROFILE), loop=loop, eager_start=True)
@@ -178,7 +184,7 @@ def run_case(case):
                     ptask.cancel()
             except Exception as e:  # noqa
                 res = type(e).__name__
-            if kind != "close":
+            if kind not in ("close", "close_slow"):
                 ev({"a": "probe", "res": res, "wrote": 1 if len(rig.tr.writes) > n_w else 0})
         for n in rig.notes:
             if n["o"] == "raised":
@@ -228,7 +234,9 @@ def run(ctx: Ctx):
     for ver in vers:
         for wl in WORKLOADS:
             n = refs[(ver, wl)]
-            for kind in KINDS + ("close",):
+            for kind in KINDS + ("close", "close_slow"):
+                if wl == "one_silent" and kind not in ("close", "close_slow", "lost", "eof"):
+                    continue
                 if kind == "silent" and wl == "reset":
                     continue      # an unanswered RST is reported by reset() itself (C11), the EZSP layer stays stopped
                 codes = (0x51, 0x02, 0x80) if kind in ("error", "rstack") else (0,)
